@@ -303,17 +303,54 @@ def classify(desc, what, text1=None, text2=None, got=None):
     return 't2incon.roundtrip:%s' % what
 
 
+def freeze(snap):
+    """a snapshot as nested tuples with floats by repr (so that -0.0, 0.0 and nan compare as themselves)"""
+    def fz(v):
+        if isinstance(v, float): return ('f', repr(v))
+        if isinstance(v, dict): return tuple((k, fz(v[k])) for k in sorted(v))
+        if isinstance(v, (list, tuple)): return tuple(fz(x) for x in v)
+        return v
+    return fz(snap)
+
+
+def first_change(a, b):
+    """which attribute of the object a write() changed (a, b: snapshots before / after)"""
+    if a['sim'] != b['sim']: return 'simulator %r -> %r' % (a['sim'], b['sim'])
+    if freeze(a['timing']) != freeze(b['timing']): return 'timing %r -> %r' % (a['timing'], b['timing'])
+    if len(a['blocks']) != len(b['blocks']): return 'number of blocks %d -> %d' % (len(a['blocks']), len(b['blocks']))
+    for x, y in zip(a['blocks'], b['blocks']):
+        for k in ('name', 'nseq', 'nadd', 'porosity', 'perm', 'vars'):
+            if freeze(x[k]) != freeze(y[k]): return 'block %r: %s %r -> %r' % (x['name'], k, x[k], y[k])
+    return None
+
+
 def roundtrip(desc, tmpdir):
-    """Runs write -> read -> write on the implementation.  Returns a dict with the outcome."""
+    """On the implementation: two writes on ONE object (first with the opposite reset flag, then with the set's own:
+    both orders occur over the generated sets), the object inspected after each; the same write on a fresh object;
+    then read back and write again.  Returns a dict with the outcome."""
     from t2incons import t2incon
-    f1 = os.path.join(tmpdir, 'a.incon'); f2 = os.path.join(tmpdir, 'b.incon')
+    f1 = os.path.join(tmpdir, 'a.incon'); f2 = os.path.join(tmpdir, 'b.incon'); f0 = os.path.join(tmpdir, 'c.incon')
     out = {}
     try:
         inc = build(desc)
+        before = snapshot(inc)
+        try:
+            inc.write(f0, reset=not desc['reset'])
+            ch = first_change(before, snapshot(inc))
+            if ch: out['object_changed'] = 'write(reset=%r): %s' % (not desc['reset'], ch)
+        except Exception:
+            pass                                  # an unrepresentable value: the write below decides
         inc.write(f1, reset=desc['reset'])
+        ch = first_change(before, snapshot(inc))
+        if ch and 'object_changed' not in out: out['object_changed'] = 'write(reset=%r): %s' % (desc['reset'], ch)
     except Exception as e:
         out['write_raised'] = type(e).__name__
         return out
+    try:
+        build(desc).write(f0, reset=desc['reset'])
+        out['text_fresh'] = open(f0, newline='').read()
+    except Exception as e:
+        out['text_fresh'] = 'raised ' + type(e).__name__
     out['text1'] = open(f1, newline='').read()
     r = guarded(lambda: t2incon(f1, num_variables=desc['nv'], check_blocknames=desc['check']), limit=max(2, len(out['text1']) // 20000))
     if r[0] == 'HANG':
@@ -337,8 +374,15 @@ def evaluate_all(desc, out):
     if 'write_raised' in out:
         if representable(desc): return [('write-raises', out['write_raised'], 'file written')]
         return []
-    if 'read_raised' in out: return [('read-raises', out['read_raised'], 'object read back')]
-    bad = compare(desc, out['got'])
+    bad = []
+    if 'object_changed' in out: bad.append(('write-alters-object', out['object_changed'], 'write() leaves the object as it was'))
+    if out.get('text_fresh') != out['text1']:
+        l1, l0 = out['text1'].split('\n'), str(out.get('text_fresh')).split('\n')
+        k = next((i for i, (a, b) in enumerate(zip(l1, l0)) if a != b), min(len(l1), len(l0)))
+        bad.append(('write-depends-on-earlier-write', 'after write(reset=%r) on the same object, line %d: %r' % (not desc['reset'], k, l1[k] if k < len(l1) else '<missing>'),
+                    'as written by a fresh object, line %d: %r' % (k, l0[k] if k < len(l0) else '<missing>')))
+    if 'read_raised' in out: return bad + [('read-raises', out['read_raised'], 'object read back')]
+    bad += compare(desc, out['got'])
     if any(w in ('flavour', 'names', 'order', 'timing') for w, _, _ in bad):
         return bad         # the second file of a different object is not compared
     if 'rewrite_raised' in out: return bad + [('rewrite-raises', out['rewrite_raised'], 'second file written')]
